@@ -143,7 +143,9 @@ EvNode(nd, st, d, C) ==
            IF st.specs THEN [st EXCEPT !.err = "document"]
            ELSE LET s2 == EvKids(nd, [st EXCEPT !.specs = TRUE], d + 1, C)
                    \* errors inside <specs> are ignored (a template may lack context)
-                IN [s2 EXCEPT !.specs = FALSE, !.err = "-", !.sc = st.sc, !.unr = Append(st.unr, nd)]
+                   \* - except an exceeded limit, which is final everywhere
+                IN [s2 EXCEPT !.specs = FALSE, !.err = IF @ \in {"depth", "loop", "var"} THEN @ ELSE "-",
+                              !.sc = st.sc, !.unr = Append(st.unr, nd)]
       [] nd.k = "reuse" ->
            IF nd.href \notin C.regs THEN [st EXCEPT !.err = "ref"]
            ELSE LET tgt == Instance(C.flat[CHOOSE j \in 1..Len(C.flat) : C.flat[j].id = nd.href], nd)
